@@ -692,7 +692,7 @@ func ExtractFacts(srcPath, dstPath, rel string) (*Facts, error) {
 			if r < 128 {
 				continue
 			}
-			if !strings.ContainsRune("µΜμſςΣσÅåÉéK\u00a0", r) {
+			if !strings.ContainsRune("µΜμſςΣσÅåÉéK\u212aẞß\u00a0", r) {
 				f.Notes = append(f.Notes, fmt.Sprintf("outside-model-alphabet(%q)", r))
 				return
 			}
